@@ -39,10 +39,21 @@ impl Case {
         match self {
             Self::Lower | Self::Snake => field.to_string(),
             Self::Upper => field.to_ascii_uppercase(),
-            Self::Pascal => field
-                .split('_')
-                .map(|s| s[..1].to_ascii_uppercase() + &s[1..])
-                .collect(),
+            Self::Pascal => {
+                /* as serde does: `_p`, `p__q`, `q_` have empty words */
+                let (mut pascal, mut capitalize) = (String::new(), true);
+                for ch in field.chars() {
+                    if ch == '_' {
+                        capitalize = true;
+                    } else if capitalize {
+                        pascal.push(ch.to_ascii_uppercase());
+                        capitalize = false;
+                    } else {
+                        pascal.push(ch);
+                    }
+                }
+                pascal
+            }
             Self::Camel => {
                 let pascal = Self::Pascal.apply_to_field(field);
                 pascal[..1].to_ascii_lowercase() + &pascal[1..]
